@@ -24,6 +24,7 @@ import (
 	"os"
 	"reflect"
 	"sort"
+	"strconv"
 	"strings"
 	"testing"
 
@@ -176,7 +177,8 @@ func vC19Members(js []byte) (vSx, map[string]interface{}, bool) {
 
 // ---- generators ----
 var vC19Pieces = []string{"a", "b", "Z", " ", "\"", "\"", "\\", "\\", "/", "<", ">", "&", "'", "\n", "\t", "\r", "\x00", "\x01", "\x1f", "\x7f",
-	"\xc3\xa9", "\xe4\xb8\xad", "\xf0\x9f\x98\x80", "\xe2\x80\xa8", "\xe2\x80\xa9", "\xef\xbf\xbd", "{", "}", "[", "]", ":", ",", "code", "null", "\\u0041", "(", ")"}
+	"\xc3\xa9", "\xe4\xb8\xad", "\xf0\x9f\x98\x80", "\xe2\x80\xa8", "\xe2\x80\xa9", "\xef\xbf\xbd", "{", "}", "[", "]", ":", ",", "code", "null", "\\u0041", "(", ")",
+	"%", "%", "%s", "%d", "%v", "%!", "%%", "%!(NOVERB)", "100%", "%5.2f", "%[1]s", "%+q", "%x", "({", "})", "cb(", ");"}
 
 func vC19Str(r *vRng) string {
 	n := r.pickInt(0, 1, 1, 2, 3, 5, 9)
@@ -331,7 +333,7 @@ func vC19Version(r *vRng) string {
 func vC19Gen(r *vRng) vSx {
 	cb := ""
 	if r.chance(1, 3) {
-		cb = r.pickStr("cb", "jQuery17_123", "a.b.c", "$", "_x", "cb[0]", "\xc3\xbc", "f g", "x&y=z")
+		cb = r.pickStr("cb", "cb", "jQuery17_123", "a.b.c", "$", "_x", "cb[0]", "\xc3\xbc", "f g", "x&y=z", "cb%s", "%d", "a%%b", "100%", "%!", "f(", "x)", "a\\b", "q\"", "<b>", "\xe2\x80\xa8", "{c}")
 	}
 	srv := r.pickStr("Oryx", "Oryx", "SRS/4.0.1", "", "a b", "\xc3\xa9")
 	var p vSx
@@ -356,6 +358,29 @@ func vC19Gen(r *vRng) vSx {
 	return vL(p, vS(cb), vS(srv), vZ(0), vI(r.intn(3)))
 }
 
+// the version object as the documentation of WriteVersion describes it:
+// {major.minor.revision-extra}, every number through strconv.Atoi, failures read as 0
+func vC19VersionObj(version, signature string) map[string]interface{} {
+	at := func(parts []string, i int) int {
+		if i >= len(parts) {
+			return 0
+		}
+		n, _ := strconv.Atoi(parts[i])
+		return n
+	}
+	dash := strings.Split(version, "-")
+	dots := strings.Split(dash[0], ".")
+	return map[string]interface{}{"major": at(dots, 0), "minor": at(dots, 1), "revision": at(dots, 2), "extra": at(dash, 1),
+		"version": version, "signature": signature}
+}
+
+// serve one request on a recorder; a panic of the handler is reported, not propagated
+func vC19Serve(h http.Handler, q string) (rec *httptest.ResponseRecorder, panicked string) {
+	rec = httptest.NewRecorder()
+	panicked = vPanicText(func() { h.ServeHTTP(rec, httptest.NewRequest("GET", "/api"+q, nil)) })
+	return
+}
+
 // ---- one case ----
 type vC19Env struct {
 	srv *httptest.Server
@@ -364,7 +389,7 @@ type vC19Env struct {
 
 func vC19Run(k *vKit, env *vC19Env, c vSx) {
 	bad := vL(vZ(-1))
-	if !c.isList() || len(c.l) != 5 || !c.l[0].isList() || len(c.l[0].l) < 2 {
+	if !c.isList() || len(c.l) < 5 || !c.l[0].isList() || len(c.l[0].l) < 2 || !c.l[0].l[0].isInt() {
 		k.record(c, bad, false)
 		return
 	}
@@ -384,71 +409,91 @@ func vC19Run(k *vKit, env *vC19Env, c vSx) {
 	st := -1
 	nontrivial := false
 	Server = srv
-	switch kind {
-	case 0:
-		val = vC19Value(p.l[1], &unm)
-		if _, err := json.Marshal(val); err != nil {
-			merr = err.Error()
+	var expect interface{} // the object the body must be the JSON of (nil: a text body)
+	build := func() {
+		switch kind {
+		case 0:
+			val = vC19Value(p.l[1], &unm)
+			if _, err := json.Marshal(val); err != nil {
+				merr = err.Error()
+			}
+			p = vL(vZ(0), p.l[1], vS(merr), vC19View([]byte(merr+"\n")))
+			h = Data(nil, val)
+			if api == 1 {
+				h = http.HandlerFunc(func(w http.ResponseWriter, r *http.Request) { WriteData(nil, w, r, val) })
+			} else if api == 2 && val == nil {
+				h = http.HandlerFunc(func(w http.ResponseWriter, r *http.Request) { Success(nil, w, r) })
+			}
+			if !unm {
+				expect = map[string]interface{}{"code": 0, "server": pid, "data": val}
+			}
+			ts := p.l[1].String()
+			nontrivial = strings.Contains(ts, "(4 ") || strings.Contains(ts, "(5 ") || strings.Contains(ts, "22") || strings.Contains(ts, "5c") || strings.Contains(ts, "x0")
+		case 1:
+			code = p.l[1].i64()
+			expect = map[string]interface{}{"code": int(code)}
+			h = Error(nil, SystemError(int(code)))
+			if api == 1 {
+				h = http.HandlerFunc(func(w http.ResponseWriter, r *http.Request) { WriteError(nil, w, r, SystemError(int(code))) })
+			}
+		case 2:
+			code, msg = p.l[1].i64(), string(p.l[2].b)
+			expect = map[string]interface{}{"code": int(code), "data": msg}
+			if api == 2 {
+				h = http.HandlerFunc(func(w http.ResponseWriter, r *http.Request) { WriteCplxError(nil, w, r, SystemError(int(code)), msg) })
+			} else if len(p.l) > 3 && p.l[3].int() == 1 {
+				h = CplxError(nil, SystemError(int(code)), msg)
+			} else {
+				h = Error(nil, SystemComplexError{SystemError(int(code)), msg})
+			}
+		case 3:
+			code, msg = p.l[1].i64(), string(p.l[2].b)
+			expect = map[string]interface{}{"code": int(code), "data": msg}
+			if len(p.l) > 3 && p.l[3].int() == 1 {
+				h = Error(nil, vC19AppSt{vC19App{int(code), msg}})
+			} else {
+				h = Error(nil, vC19App{int(code), msg})
+			}
+		case 4:
+			st, msg = p.l[1].int(), string(p.l[2].b)
+			p = vL(vZ(4), vI(st), vS(msg), vC19View([]byte(msg+"\n")))
+			if st < 0 {
+				h = Error(nil, errors.New(msg))
+			} else {
+				h = Error(nil, vC19Plain{st, msg})
+			}
+		case 5:
+			msg = string(p.l[1].b)
+			expect = map[string]interface{}{"code": 0, "server": pid, "data": vC19VersionObj(msg, srv)}
+			h = http.HandlerFunc(func(w http.ResponseWriter, r *http.Request) { WriteVersion(w, r, msg) })
+			nontrivial = strings.Contains(msg, "-") && strings.Contains(msg, ".")
 		}
-		p = vL(vZ(0), p.l[1], vS(merr), vC19View([]byte(merr+"\n")))
-		h = Data(nil, val)
-		if api == 1 {
-			h = http.HandlerFunc(func(w http.ResponseWriter, r *http.Request) { WriteData(nil, w, r, val) })
-		} else if api == 2 && val == nil {
-			h = http.HandlerFunc(func(w http.ResponseWriter, r *http.Request) { Success(nil, w, r) })
-		}
-		ts := p.l[1].String()
-		nontrivial = strings.Contains(ts, "(4 ") || strings.Contains(ts, "(5 ") || strings.Contains(ts, "22") || strings.Contains(ts, "5c") || strings.Contains(ts, "x0")
-	case 1:
-		code = p.l[1].i64()
-		h = Error(nil, SystemError(int(code)))
-		if api == 1 {
-			h = http.HandlerFunc(func(w http.ResponseWriter, r *http.Request) { WriteError(nil, w, r, SystemError(int(code))) })
-		}
-	case 2:
-		code, msg = p.l[1].i64(), string(p.l[2].b)
-		if api == 2 {
-			h = http.HandlerFunc(func(w http.ResponseWriter, r *http.Request) { WriteCplxError(nil, w, r, SystemError(int(code)), msg) })
-		} else if len(p.l) > 3 && p.l[3].int() == 1 {
-			h = CplxError(nil, SystemError(int(code)), msg)
-		} else {
-			h = Error(nil, SystemComplexError{SystemError(int(code)), msg})
-		}
-	case 3:
-		code, msg = p.l[1].i64(), string(p.l[2].b)
-		if len(p.l) > 3 && p.l[3].int() == 1 {
-			h = Error(nil, vC19AppSt{vC19App{int(code), msg}})
-		} else {
-			h = Error(nil, vC19App{int(code), msg})
-		}
-	case 4:
-		st, msg = p.l[1].int(), string(p.l[2].b)
-		p = vL(vZ(4), vI(st), vS(msg), vC19View([]byte(msg+"\n")))
-		if st < 0 {
-			h = Error(nil, errors.New(msg))
-		} else {
-			h = Error(nil, vC19Plain{st, msg})
-		}
-	case 5:
-		msg = string(p.l[1].b)
-		h = http.HandlerFunc(func(w http.ResponseWriter, r *http.Request) { WriteVersion(w, r, msg) })
-		nontrivial = strings.Contains(msg, "-") && strings.Contains(msg, ".")
-	default:
+	}
+	if kind < 0 || kind > 5 {
 		k.record(c, bad, false)
+		return
+	}
+	if msg := vPanicText(build); msg != "" || h == nil {
+		idx := k.record(c, vPanicObs(), false)
+		k.fail(idx, c.size(), "no-panic", "", "building the handler panicked: "+msg)
 		return
 	}
 	if kind >= 1 && kind <= 3 && code < 0 {
 		nontrivial = true
 	}
-	c = vL(p, c.l[1], c.l[2], vI(pid), c.l[4])
+	// the bytes encoding/json produces for the expected object (the harness's own call)
+	var mb []byte
+	if expect != nil {
+		mb, _ = json.Marshal(expect)
+	}
+	c = vL(p, c.l[1], c.l[2], vI(pid), c.l[4], vB(mb))
 
 	// the response itself
 	q := ""
 	if cb != "" {
 		q = "?callback=" + url.QueryEscape(cb)
 	}
-	rec := httptest.NewRecorder()
-	panicked := vPanicText(func() { h.ServeHTTP(rec, httptest.NewRequest("GET", "/api"+q, nil)) })
+	rec, panicked := vC19Serve(h, q)
 	if panicked != "" {
 		idx := k.record(c, vPanicObs(), nontrivial)
 		k.fail(idx, c.size(), "no-panic", "", "handler panicked: "+panicked)
@@ -496,10 +541,14 @@ func vC19Run(k *vKit, env *vC19Env, c vSx) {
 	var cErr error
 	if cb == "" {
 		env.h = h
-		cCode, _, cErr = ApiRequest(env.srv.URL + "/api")
+		if msg := vPanicText(func() { cCode, _, cErr = ApiRequest(env.srv.URL + "/api") }); msg != "" {
+			idx := k.record(c, vPanicObs(), nontrivial)
+			k.fail(idx, c.size(), "no-panic", "", "ApiRequest panicked: "+msg)
+			return
+		}
 		clientObs = vL(vBool(cErr != nil), vI(cCode))
 	}
-	obs := vL(vI(rec.Code), vI(ctCode), vS(rec.Header().Get("Server")), bodyObs, clientObs)
+	obs := vL(vI(rec.Code), vI(ctCode), vS(rec.Header().Get("Server")), bodyObs, clientObs, vB(body))
 	idx := k.record(c, obs, nontrivial)
 	fail := func(oracle, key, detail string) { k.fail(idx, c.size(), oracle, key, detail) }
 	show := func(b []byte) string {
@@ -519,6 +568,35 @@ func vC19Run(k *vKit, env *vC19Env, c vSx) {
 	wantCt := "application/json"
 	if cb != "" {
 		wantCt = "application/javascript"
+	}
+	if expect != nil {
+		// the plain body is the JSON of the expected object; with a callback the body is exactly
+		// callback ( the plain body of the same handler ) byte for byte
+		rec0, p0 := vC19Serve(h, "")
+		plain := rec0.Body.Bytes()
+		if p0 != "" {
+			fail("no-panic", "", "handler panicked without callback: "+p0)
+		} else if !bytes.Equal(plain, mb) {
+			fail("body-is-json-of-value", "", fmt.Sprintf("plain body %s, json.Marshal of the expected object gives %s", show(plain), show(mb)))
+		}
+		if cb != "" {
+			k.count("jsonp", "compared")
+			want := append(append(append([]byte(cb), '('), plain...), ')')
+			if !bytes.Equal(body, want) {
+				fail("jsonp-same-json", "", fmt.Sprintf("with callback %q the body is %s, the plain body is %s", cb, show(body), show(plain)))
+			}
+			// the data recovered from the JSONP payload is the value
+			var got, wantv interface{}
+			inner := body
+			if len(body) >= len(cb)+2 {
+				inner = body[len(cb)+1 : len(body)-1]
+			}
+			e1 := json.Unmarshal(inner, &got)
+			e2 := json.Unmarshal(mb, &wantv)
+			if e1 != nil || e2 != nil || !reflect.DeepEqual(got, wantv) {
+				fail("jsonp-data", "", fmt.Sprintf("the payload of %s does not decode to the value (%v)", show(body), e1))
+			}
+		}
 	}
 	exact := func(z int64) bool { return z >= -(int64(1)<<53) && z <= int64(1)<<53 }
 	switch {
@@ -639,15 +717,23 @@ func TestVerifC19(t *testing.T) {
 	defer env.srv.Close()
 	saved := Server
 	defer func() { Server = saved }()
+	run := func(c vSx) { k.safely(c, func() { vC19Run(k, env, c) }) }
 	if k.replay != nil {
-		vC19Run(k, env, *k.replay)
+		run(*k.replay)
 		return
 	}
 	for _, c := range k.corpus() {
-		vC19Run(k, env, c)
+		run(c)
 	}
-	n := k.N(2500, 30000)
+	n := k.N(2000, 24000)
 	for i := 0; i < n; i++ {
-		vC19Run(k, env, vC19Gen(k.rnd))
+		c := vC19Gen(k.rnd)
+		run(c)
+		// the plain and the JSONP variant of the same value
+		if len(c.l[1].b) > 0 {
+			run(vL(c.l[0], vS(""), c.l[2], c.l[3], c.l[4]))
+		} else if k.rnd.chance(1, 3) {
+			run(vL(c.l[0], vS(k.rnd.pickStr("cb", "cb%s", "%d", "j.q")), c.l[2], c.l[3], c.l[4]))
+		}
 	}
 }
